@@ -319,7 +319,11 @@ def _counter(F, b, g, D, h, body):
         for ctr_op, bound_op, ops_up in ((rv['a'], rv['b'], ('Lt', 'Le', 'Ne')), (rv['b'], rv['a'], ('Gt', 'Ge', 'Ne'))):
             if rv['op'] not in ops_up: continue
             co = D.origin(ctr_op)
-            if co[0] != 'multi': continue
+            if co[0] != 'multi':
+                # `L + c <= bound`
+                ce = expr_of(F, b, ctr_op)
+                if ce[0] == 'op' and ce[1] == 'Add' and ce[2][0] == 'multi' and ce[3][0] == 'c' and ce[3][1] >= 0: co = ce[2]
+                else: continue
             L = co[1]
             steps = [d for d in D.defs.get(L, []) if d[1] in body]
             if not steps: continue
